@@ -157,6 +157,46 @@ def install(eng):
             if c == 0: return n
             n += 1
     S['strlen'] = strlen
+    def _zero_fill(st, addr, n):
+        if n > 0:
+            o, off = st.find(addr, n, True); o.data[off:off + n] = [0] * n
+    def strnlen(eng, st, fr, a, work, ins):
+        lim = a[1] if type(a[1]) is int else addr_of(eng, st, a[1], 0, work, 600)
+        n = 0
+        while n < lim:
+            c = st.load(a[0] + n, 1)
+            if type(c) is not int:
+                outs = eng.branch(st, c == 0)
+                if len(outs) == 2:
+                    s2 = outs[1][0]; s2.frames[-1].ip -= 1; work.append(s2)
+                if not outs[0][1]: n += 1; continue
+                return n
+            if c == 0: return n
+            n += 1
+        return n
+    S['strnlen'] = strnlen
+    def strcpy(eng, st, fr, a, work, ins):
+        k = strlen(eng, st, fr, [a[1]], work, ins)
+        st.copy(a[0], a[1], k + 1); return a[0]
+    S['strcpy'] = strcpy
+    def strncpy(eng, st, fr, a, work, ins):
+        # ISO C: copies at most n characters of src, and pads dst with NULs up to n when src is shorter (no terminator when it is not)
+        n = a[2] if type(a[2]) is int else addr_of(eng, st, a[2], 0, work, 600)
+        k = strnlen(eng, st, fr, [a[1], n], work, ins)
+        if k: st.copy(a[0], a[1], k)
+        _zero_fill(st, a[0] + k, n - k)
+        return a[0]
+    S['strncpy'] = strncpy
+    def strcat(eng, st, fr, a, work, ins):
+        d = strlen(eng, st, fr, [a[0]], work, ins); k = strlen(eng, st, fr, [a[1]], work, ins)
+        st.copy(a[0] + d, a[1], k + 1); return a[0]
+    S['strcat'] = strcat
+    def strncat(eng, st, fr, a, work, ins):
+        n = a[2] if type(a[2]) is int else addr_of(eng, st, a[2], 0, work, 600)
+        d = strlen(eng, st, fr, [a[0]], work, ins); k = strnlen(eng, st, fr, [a[1], n], work, ins)
+        if k: st.copy(a[0] + d, a[1], k)
+        _zero_fill(st, a[0] + d + k, 1); return a[0]
+    S['strncat'] = strncat
     def memcmp(eng, st, fr, a, work, ins):
         n = a[2]
         if type(n) is not int: n = addr_of(eng, st, n, 0, work, 4096)
